@@ -7,6 +7,7 @@ import (
 	"fmt"
 	"os"
 	"runtime"
+	"strings"
 	"sync"
 	"sync/atomic"
 	"time"
@@ -179,6 +180,7 @@ func Explore(s Sys, run *ev.Run) Stats {
 		var wg sync.WaitGroup
 		for w := 0; w < workers; w++ {
 			wg.Add(1)
+			w := w
 			go func() {
 				defer wg.Done()
 				for {
@@ -201,6 +203,7 @@ func Explore(s Sys, run *ev.Run) Stats {
 							impl.Do(o)
 						}
 						m := n.m.Clone()
+						ev.SetInFlight(w, inflightDesc(s.Name, impl.Name(), hist, op))
 						got := impl.Do(op)
 						want := m.Do(op)
 						atomic.AddInt64(&st.Transitions, 1)
@@ -321,6 +324,22 @@ func Explore(s Sys, run *ev.Run) Stats {
 	st.States = int64(len(seen))
 	st.Exhaustive = exhaustive
 	return st
+}
+
+// inflightDesc is the breadcrumb published before a transition runs (tags only: cheap).
+func inflightDesc(sys, drvName string, hist []drv.Op, op drv.Op) string {
+	var sb strings.Builder
+	sb.WriteString(sys + " @" + drvName + " history:")
+	for _, h := range hist {
+		sb.WriteString(" " + tag(h) + ";")
+	}
+	sb.WriteString(" op: ")
+	sb.WriteString(op.String())
+	s := sb.String()
+	if len(s) > 1000 {
+		s = "..." + s[len(s)-997:]
+	}
+	return s
 }
 
 // base is the SDK adapter a driver name belongs to ("v1x2" -> "v1").
